@@ -21,6 +21,7 @@ func init() {
 		ruleA2(c, "C12.Z6")
 		ruleF4(c, "C12.Z7")
 		ruleF1(c, "C12.Z8")
+		ruleF10(c, "C12.Z9")
 	}
 }
 
